@@ -332,22 +332,28 @@ class SFixed(Template[_FixedTemplateArg], AssignableType):
 
                         if cutoff == 1:
                             do_round = (
-                                Signed[2](1)
+                                Unsigned[1](1)
                                 if self._val[cutoff - 1] and self._val[cutoff]
-                                else Signed[2](0)
+                                else Unsigned[1](0)
                             )
                         else:
                             do_round = (
-                                Signed[2](1)
+                                Unsigned[1](1)
                                 if self._val[cutoff - 1]
                                 and (self._val[cutoff] or self._val[cutoff - 2 : 0])
-                                else Signed[2](0)
+                                else Unsigned[1](0)
                             )
 
+                        # add on the unsigned view: the sum keeps the width of
+                        # the selected bits and wraps around like the target
                         return Result(
                             raw=Value[Signed[Result._width]](
-                                self._val.lsb(rest=overflow).msb(rest=cutoff).signed
-                                + do_round
+                                (
+                                    self._val.lsb(rest=overflow)
+                                    .msb(rest=cutoff)
+                                    .unsigned
+                                    + do_round
+                                ).signed
                             )
                         )
             else:
@@ -403,32 +409,36 @@ class SFixed(Template[_FixedTemplateArg], AssignableType):
 
                         if cutoff == 1:
                             do_round = (
-                                Signed[2](1)
+                                Unsigned[1](1)
                                 if self._val[cutoff - 1] and self._val[cutoff]
-                                else Signed[2](0)
+                                else Unsigned[1](0)
                             )
                         else:
                             do_round = (
-                                Signed[2](1)
+                                Unsigned[1](1)
                                 if self._val[cutoff - 1]
                                 and (self._val[cutoff] or self._val[cutoff - 2 : 0])
-                                else Signed[2](0)
+                                else Unsigned[1](0)
                             )
 
-                        selected_bits = self._val.lsb(rest=overflow + 1).msb(
-                            rest=cutoff
+                        selected_bits = self._val.lsb(rest=overflow).msb(rest=cutoff)
+
+                        # rounding up the largest representable value would
+                        # carry into the sign bit
+                        round_overflows = (
+                            do_round
+                            and selected_bits.signed == Signed[Result._width].max()
                         )
-                        overflow_or_full = does_overflow or not ~selected_bits
 
                         return Result(
                             raw=Value[Signed[Result._width]](
                                 choose_first(
                                     (does_underflow, Signed[Result._width].min()),
-                                    (overflow_or_full, Signed[Result._width].max()),
-                                    default=self._val.lsb(rest=overflow)
-                                    .msb(rest=cutoff)
-                                    .signed
-                                    + do_round,
+                                    (
+                                        does_overflow or round_overflows,
+                                        Signed[Result._width].max(),
+                                    ),
+                                    default=(selected_bits.unsigned + do_round).signed,
                                 )
                             )
                         )
@@ -454,24 +464,43 @@ class SFixed(Template[_FixedTemplateArg], AssignableType):
 
                     if cutoff == 1:
                         do_round = (
-                            Signed[2](1)
+                            Unsigned[1](1)
                             if self._val[cutoff - 1] and self._val[cutoff]
-                            else Signed[2](0)
+                            else Unsigned[1](0)
                         )
                     else:
                         do_round = (
-                            Signed[2](1)
+                            Unsigned[1](1)
                             if self._val[cutoff - 1]
                             and (self._val[cutoff] or self._val[cutoff - 2 : 0])
-                            else Signed[2](0)
+                            else Unsigned[1](0)
                         )
 
-                    return Result(
-                        raw=Value[Signed[Result._width]](
-                            self._val.msb(rest=cutoff).signed.resize(Result._width)
-                            + do_round
+                    selected_bits = self._val.msb(rest=cutoff).signed
+                    rounded = (
+                        selected_bits.resize(Result._width).unsigned + do_round
+                    ).signed
+
+                    if (
+                        overflow_style is FixedOverflowStyle.SATURATE
+                        and selfleft == left
+                    ):
+                        # rounding up the largest representable value would
+                        # carry into the sign bit
+                        round_overflows = (
+                            do_round and selected_bits == Signed[Result._width].max()
                         )
-                    )
+
+                        return Result(
+                            raw=Value[Signed[Result._width]](
+                                choose_first(
+                                    (round_overflows, Signed[Result._width].max()),
+                                    default=rounded,
+                                )
+                            )
+                        )
+                    else:
+                        return Result(raw=Value[Signed[Result._width]](rounded))
 
 
 #
@@ -808,9 +837,24 @@ class UFixed(Template[_FixedTemplateArg], AssignableType):
                             else Unsigned[1](0)
                         )
 
-                    return Result(
-                        raw=Value[Unsigned[Result._width]](
-                            self._val.msb(rest=cutoff).unsigned.resize(Result._width)
-                            + do_round
+                    selected_bits = self._val.msb(rest=cutoff)
+                    rounded = selected_bits.unsigned.resize(Result._width) + do_round
+
+                    if (
+                        overflow_style is FixedOverflowStyle.SATURATE
+                        and selfleft == left
+                    ):
+                        # rounding up the largest representable value would
+                        # carry out of the target
+                        round_overflows = do_round and not ~selected_bits
+
+                        return Result(
+                            raw=Value[Unsigned[Result._width]](
+                                choose_first(
+                                    (round_overflows, Unsigned[Result._width].max()),
+                                    default=rounded,
+                                )
+                            )
                         )
-                    )
+                    else:
+                        return Result(raw=Value[Unsigned[Result._width]](rounded))
